@@ -59,9 +59,15 @@ def part_names(rep, rng):
         + [("fn:family_field_name", ["", s]) for s in upper_ids]
     combos = []
     pool = [s for s in ids if not s.startswith("r#") and len(s) <= 3]
+    raw_pool = ["r#type", "r#match", "r#a_b", "r#_x_", "r#move", "r#a", "r#B1"]
     for _ in range(150 if rep.tier == "quick" else 1500):
         combos.append([rng.choice(pool) for _ in range(rng.randint(1, 4))])
-    combos += [["a_b", "c"], ["a", "b_c"], ["__"], ["a", "__"]]
+    # raw identifiers in every position of the container (a destructuring pattern may bind `r#type` anywhere)
+    for _ in range(80 if rep.tier == "quick" else 600):
+        c = [rng.choice(pool + raw_pool) for _ in range(rng.randint(1, 4))]
+        c[rng.randrange(len(c))] = rng.choice(raw_pool)
+        combos.append(c)
+    combos += [["a_b", "c"], ["a", "b_c"], ["__"], ["a", "__"], ["a", "r#type"], ["r#type", "b"], ["r#type"], ["r#type", "r#match", "c"], ["a", "b", "r#move"]]
     jobs += [("fn:combined_ident", [""] + c) for c in combos] + [("fn:combined_ident", [""])]
     res = hook.run_parallel(jobs, tag="c06n")
     if res is None:
